@@ -75,7 +75,9 @@ CLAIMED.update({
             "compilation, cache fill) in 2-3 threads under controlled hand-over points and compares every result with the call executed alone",
             "Coq serialisability proof over an interleaving model + deterministic schedule replay on real threads", "DESIGN.md 3/C10"),
     "C11": ("Specification select (function of argument, with-stack, argument types and the set of available backends) with theorems: "
-            "order independence under permutation of the declarations, precedence chain, invalid backends never candidates (Props/C11.v); "
+            "order independence under permutation of the declarations, precedence chain, invalid backends never candidates, and the refinement "
+            "theorem: after any declarations meeting the property's hypotheses, for EVERY sequence of imports / with-blocks / lookups the "
+            "registry state machine (memo, lazy factories, latch) answers each lookup as select does (Props/C11.v, 700 lines of proof); "
             "Gallina model of BackendRegistryState (memo, lazy factories, latch) compared with fresh real BackendRegistry objects on "
             "random histories with synthetic frameworks, failing factories, imports and nested with-blocks",
             "Coq theorems on the specification + model/implementation correspondence on random histories", "DESIGN.md 3/C11"),
@@ -107,7 +109,7 @@ CLAIMED.update({
 })
 EXTRA_NOTES = {"C15": "adapt_with_vmap is not exercised: no framework offering vmap is importable in this sandbox (stated in DESIGN.md). ", "C10": "Partial: pre-emption inside C code (functools.cache, dict operations) and the tracing/compilation part of a call are not scheduled; only the registry methods are. ",
                "C03": "Partial: only the stage-1 parser is covered by a theorem; rule layer, solver and binding errors are sampled by the corruption oracle. ",
-               "C11": "The refinement theorem model-get = select is not yet proved for all histories (stated in DESIGN.md); the model is tied to the code by correspondence. "}
+               "C11": "The theorem is about the Gallina state machine; it is tied to backend.py by the history correspondence (sampled). "}
 
 
 def main():
